@@ -134,8 +134,11 @@ def rules(ctx):
     ctx.rule('R14.10', "a field of model objects that is not one of the frozen bookkeeping fields and is written together "
                        "with the terms / a bookkeeping field is written by every other mutator of that state", floor=1)
     derived_fields(ctx, 'R14.10')
+    no_module_state(ctx, 'R14.10')
     from .C02 import copy_ctor_counter
     copy_ctor_counter(ctx, 'R14.8')
+    from .C03 import counter_handback_source
+    counter_handback_source(ctx, 'R14.8')
 
     model_classes = {c.name for c in P.subclasses_of('DictArithmetic')}
 
@@ -412,6 +415,57 @@ def refresh_order(ctx, rid):
 
 
 
+def no_module_state(ctx, rid):
+    """No function of the package writes module-level state (a memo, a registry, a counter): results would depend on the
+    history of earlier calls - and a memo keyed by labels confuses 1, 1.0 and True, which hash alike.  The reference tree
+    has no such write (expected count 0; the self-test keeps a positive example)."""
+    P = ctx.prog
+    n = 0
+    for m in P.modules.values():
+        glob = set()
+        for st in m.tree.body:
+            if isinstance(st, (ast.Assign, ast.AnnAssign, ast.AugAssign)):
+                for t in (st.targets if isinstance(st, ast.Assign) else [st.target]):
+                    for x in ast.walk(t):
+                        if isinstance(x, ast.Name):
+                            glob.add(x.id)
+        glob -= {'__all__'}
+        for f in P.all_funcs():
+            if f.module is not m:
+                continue
+            n += 1
+            local = set(f.all_params)
+            declared = set()
+            for x in ast.walk(f.node):
+                if isinstance(x, ast.Name) and isinstance(x.ctx, (ast.Store, ast.Del)):
+                    local.add(x.id)
+                if isinstance(x, ast.Global):
+                    declared |= set(x.names)
+            o = f.outer
+            while o is not None:
+                local |= set(o.all_params) | {x.id for x in ast.walk(o.node) if isinstance(x, ast.Name) and isinstance(x.ctx, ast.Store)}
+                o = o.outer
+            local -= declared
+            bad = None
+            for x in ast.walk(f.node):
+                if isinstance(x, ast.Name) and isinstance(x.ctx, (ast.Store, ast.Del)) and x.id in declared:
+                    bad = x
+                if isinstance(x, (ast.Subscript, ast.Attribute)) and isinstance(x.ctx, (ast.Store, ast.Del)) \
+                        and isinstance(x.value, ast.Name) and x.value.id in glob and x.value.id not in local:
+                    bad = x
+                if isinstance(x, ast.Call) and isinstance(x.func, ast.Attribute) and isinstance(x.func.value, ast.Name) \
+                        and x.func.value.id in glob and x.func.value.id not in local and x.func.attr in (
+                            'append', 'add', 'update', 'setdefault', 'pop', 'popitem', 'clear', 'extend', 'insert', 'remove',
+                            'discard', '__setitem__', 'sort', 'reverse'):
+                    bad = x
+            if bad is not None:
+                ctx.inst(rid, f, enclosing_stmt(bad) or bad, False,
+                         "%s writes the module-level object `%s`: what the function returns now depends on earlier calls "
+                         "(and a table keyed by labels treats 1, 1.0 and True as one key)" % (f.qual, src(bad)[:50]))
+    ctx.inst(rid, ('qubovert', ''), 'module-level state', True, "%d functions scanned for writes to module-level objects" % n,
+             nontrivial=False)
+
+
 KNOWN_FIELDS = {'_mapping', '_reverse_mapping', '_next_label', '_variables', '_degree', '_num_binary_variables',
                 '_constraints', '_ancilla', '_name', 'name'}
 DICT_MUTATORS = ('__setitem__', '__delitem__', 'pop', 'popitem', 'clear', 'update', 'setdefault')
@@ -508,9 +562,28 @@ def derived_fields(ctx, rid):
                              "`%s` goes stale" % (F, dep, ', '.join(sorted(w.qual for w in non_init))[:80], g.qual, dep, F))
 
 
+def clear_reinit(ctx, rid):
+    """clear() empties every cache of every parent: it re-runs the receiver's own __init__ (MRO dispatch) with no
+    arguments after emptying the terms - resetting a hand-picked list of fields leaves the other parents' caches (the
+    label mapping of BO) describing a model that is gone."""
+    P, R = ctx.prog, ctx.res
+    cl = P.func('PUBOMatrix.clear')
+    sn = R.self_name(cl)
+    g = cfg_of(cl.node)
+    inits = [n for n in g.stmts() if isinstance(n, ast.Expr) and isinstance(n.value, ast.Call)
+             and isinstance(n.value.func, ast.Attribute) and n.value.func.attr == '__init__'
+             and is_name(n.value.func.value, sn) and not n.value.args and not n.value.keywords]
+    ok = bool(inits) and g.must_pass_to_exit(ENTRY, set(inits))
+    ctx.inst(rid, cl, inits[0] if inits else 'def clear', ok,
+             "clear() re-initialises through %s.__init__() on every path" % sn if ok else
+             "clear() does not re-run %s.__init__() on every path: the caches of the other parent classes (label mapping, "
+             "next label) survive the clear and describe the old model" % sn)
+
+
 def registration_parity(ctx, rid):
     """R14.4: a label enters the mapping under the same guard and iteration domain as it enters the variable cache."""
     P, R = ctx.prog, ctx.res
+    clear_reinit(ctx, rid)
     fn = P.func('PUBOMatrix.__setitem__')
     selfn = R.self_name(fn)
     # ------------------------------------------------------------ R14.4
@@ -577,6 +650,23 @@ def who_may_write(ctx, rid, fields):
 def inverse_pairs(ctx, rid):
     """R14.2: mapping / reverse mapping written as inverse pairs."""
     P, R = ctx.prog, ctx.res
+    # the two tables are two objects: never bound by one chained assignment or to each other
+    pair = {'_mapping', '_reverse_mapping'}
+    for fn in P.all_funcs():
+        for n in ast.walk(fn.node):
+            if not isinstance(n, ast.Assign):
+                continue
+            fl = [t.attr for t in n.targets if isinstance(t, ast.Attribute) and t.attr in pair]
+            shared = len(set(fl)) == 2 and not isinstance(n.value, (ast.Constant, ast.Tuple))
+            cross = any(isinstance(t, ast.Attribute) and t.attr in pair for t in n.targets) and \
+                isinstance(n.value, ast.Attribute) and n.value.attr in pair - set(fl) and \
+                src(n.value.value) in [src(t.value) for t in n.targets if isinstance(t, ast.Attribute)]
+            if fl:
+                ctx.inst(rid, fn, n, not (shared or cross),
+                         "tables bound to separate objects" if not (shared or cross) else
+                         "`%s` binds the mapping and the reverse mapping to ONE object: every later registration writes "
+                         "label->index and index->label into the same dict, so integer labels collide with indices"
+                         % src(n)[:70])
     # ------------------------------------------------------------ R14.2
     for q in ('BO.__setitem__', 'BO.set_mapping', 'BO.set_reverse_mapping', 'BO.__init__',
               'PUSO._create_pubo'):
